@@ -7,13 +7,23 @@ the real malt is run with the tracing-style backend of vf/tracing.py and must re
 import os
 import json
 import multiprocessing
+import signal
 
 from .. import common, mprun, minipy as mp
+
+
+class _Timeout(BaseException):
+    pass
+
+
+def _on_alarm(*a):
+    raise _Timeout()
 
 
 def _chunk(args):
     progs, recs, wdroot = args
     common.use_repo()
+    signal.signal(signal.SIGALRM, _on_alarm)
     from .. import tracing
     from .. import replay as rp
     from malt.core import converter
@@ -38,8 +48,13 @@ def _chunk(args):
         if g is None:
             continue
         try:
-            obs = mp.outcome(g, list(rec['inp']))
-        except tracing.BackendDiverged:
+            tracing.reset_budget()
+            signal.setitimer(signal.ITIMER_REAL, 2.0)      # speculative runs can square big integers for ever
+            try:
+                obs = mp.outcome(g, list(rec['inp']))
+            finally:
+                signal.setitimer(signal.ITIMER_REAL, 0)
+        except (tracing.BackendDiverged, _Timeout):
             skipped += 1
             continue
         if obs[0] == 'exc' and 'BackendDiverged' in str(obs):
@@ -50,6 +65,36 @@ def _chunk(args):
         if obs != exp:
             out.append(dict(pid=pid, inp=rec['inp'], expected=exp, observed=obs))
     return dict(div=out, n=n, skipped=skipped, errs=errs)
+
+
+def rebound_only_through_callee(p):
+    """Some if/loop body calls a local function that rebinds, through `nonlocal`, a variable the body itself does not assign."""
+    from .. import mpsig
+    par = mpsig.parents(p)
+    writes = {}      # fid -> names written through a nonlocal declaration (directly)
+    for i, f in enumerate(p['fns'], 1):
+        nl = set(f['nonlocals'])
+        w = set()
+        for d in p['nodes']:
+            if d['fn'] == i:
+                w |= set(d['tgt']) & nl
+        writes[i] = w
+    byname = {f['name']: i for i, f in enumerate(p['fns'], 1)}
+    for n, d in enumerate(p['nodes'], 1):
+        if d['kind'] != 'call' or d['name'] not in byname:
+            continue
+        w = writes[byname[d['name']]]
+        if not w:
+            continue
+        for k, sec, q in mpsig.path(p, n, par):
+            if k in ('if', 'while', 'for'):
+                own = {m for m in range(1, len(p['nodes']) + 1) if any(qq == q for _, _, qq in mpsig.path(p, m, par))}
+                assigned = set()
+                for m in own:
+                    assigned |= set(p['nodes'][m - 1]['tgt'])
+                if w - assigned:
+                    return True
+    return False
 
 
 def run(rep):
@@ -90,7 +135,10 @@ def run(rep):
                           dict(source=mp.render(progs[e['pid'] - 1])[0]))
         for d in r['div']:
             p = progs[d['pid'] - 1]
-            rep.violation('c02:result:%s->%s' % (d['expected'][0], d['observed'][0] if d['observed'][0] != 'exc' else 'exc:' + d['observed'][1].split(':')[0:2][-1]),
+            sig = 'c02:result:%s->%s' % (d['expected'][0], d['observed'][0] if d['observed'][0] != 'exc' else 'exc:' + d['observed'][1].split(':')[0:2][-1])
+            if rebound_only_through_callee(p):
+                sig = 'c02:state:variable-rebound-only-through-nested-function-nonlocal'
+            rep.violation(sig,
                           'tracing backend computes %s, the original computes %s' % (d['observed'], d['expected']),
                           dict(source=mp.render(p)[0], inputs=d['inp'], expected=d['expected'], observed=d['observed']))
     for p in progs[:2]:
